@@ -212,6 +212,8 @@ m("C16-n", "C16", "libwallet/src/api_impl/owner.rs", "\tupdate_outputs(wallet_in
 m("C08-f", "C08", "libwallet/src/slate_versions/v4_bin.rs", "\t\t\twriter.write_u64(lock_hgt)?;", "\t\t\twriter.write_u64(lock_hgt as u32 as u64)?;", "C08.R8")
 m("C02-k", "C02", "libwallet/src/internal/tx.rs", "\t\tif t.tx_type == TxLogEntryType::TxSent && !is_invoiced {", "\t\tif t.tx_type == TxLogEntryType::TxSent {", "C02.R7")
 
+m("C13-f", "C13", "api/src/types.rs", "\t\tlet nonce: [u8; 12] = thread_rng().gen();", "\t\tlet nonce: [u8; 12] = [7u8; 12];", "C13.R2")
+
 
 def for_property(prop):
     return [x for x in M if x["property"] == prop]
